@@ -12,12 +12,17 @@ RULE = ('(a) complete sweep of the deadline tie: the matching data placed at eve
         'Oracle (virtual stopwatch): finite T => returns by T+0.5 s; TIMEOUT with T>0 while connected => elapsed >= T; T=None => '
         'never TIMEOUT and returns within 0.5 s of the awaited event; T=0 => examines pending + immediately readable data and '
         'does not block; -1 == instance default on every entry point; a match delivered well inside T is reported. '
+        'Added later: the tie sweep also delivers NON-matching text, uses select and poll, and runs on a uniformly slow machine '
+        '(0.2 ms per call, +-1 ms in 25 us steps); a peer that delivers only the head of a multi-byte character; runs of EINTR at '
+        '50..97 % of the timeout; the socket object\'s own timeout varied; processes with > 1024 descriptors (poll only). '
         'Non-trivial: the call blocked at least once or consumed a read; distinct by trace digest')
 
 ASSUME = ['no wall-clock steps are injected (pexpect computes deadlines from time.time())',
           'death latency of a signalled child is within pexpect\'s 0.1 s grace sleeps',
-          'EINTR is not injected: CPython >= 3.5 retries interrupted select/poll itself (PEP 475)',
-          'per-syscall virtual cost 1..20 us; epsilon 0.5 virtual s']
+          'EINTR is injected as InterruptedError reaching pexpect.utils (pre-PEP-475 runtimes, which setup.py still declares); a run in '
+          'which it escapes uncaught (a tree relying on PEP 475) is set aside and counted, not judged',
+          'per-syscall virtual cost 1..20 us, in a fifth of the runs 0.05..5 ms (slow machine); the stopwatch excludes the cost of the '
+          'system calls themselves, waiting inside them counts; epsilon 0.5 virtual s']
 
 
 def nontrivial(scn, info):
